@@ -111,6 +111,31 @@ def run(ctx):
         diff = {v: (t[v], ref[v]) for v in ref if t[v] != ref[v]}
         if diff:
             ctx.finding(f'T8/{nm}', f'{nm} disagrees with the reference truthiness table on {diff}', f.loc, {'diff': diff})
+    # inline keep/drop matches of the WHERE pipeline (scan-level filters, zero-copy filters, their parallel closures, post-join filter):
+    # discovered, compared on the classes that do not depend on the control-flow idiom (error / non-zero / by value)
+    INLINE_SCOPE = ('vibesql_executor::select::scan::', 'vibesql_executor::select::filter::', 'vibesql_executor::select::iterator::filter',
+                    'vibesql_executor::select::join::apply_post_join_filter')
+    ninl = 0
+    for f in sorted(prog.fns.values(), key=lambda f: f.nice):
+        if f.unit != 'vibesql_executor' or f.dk == 'Promoted' or f.nice in TRUTHY or not f.nice.startswith(INLINE_SCOPE):
+            continue
+        if '/tests' in f.file or '::tests::' in f.nice or f.file.endswith('tests.rs'):
+            continue
+        try:
+            t = truthiness_table(prog, f)
+        except Exception:
+            t = None
+        if not t or t.get('Boolean') != 'bool':
+            continue
+        if sum(1 for v in t.values() if v == 'other') > 4:
+            continue            # a match on SqlValue that is not a keep/drop decision (name derivation etc.)
+        ninl += 1
+        diff = {v: (t[v], ref[v]) for v in ref if any((t[v] == c) != (ref[v] == c) for c in ('error', 'nonzero', 'bool'))}
+        ctx.instance(f'T8/inline/{f.nice}', {'rule': 'C06.T8', 'fn': f.nice, 'loc': f.loc, 'differences': diff})
+        if diff:
+            ctx.finding(f'T8/inline/{f.nice}', f'{f.nice} decides keep/drop of a WHERE result differently from the reference table on {diff}: the same '
+                        'predicate keeps different rows depending on which stage of the plan evaluates it', f.loc, {'diff': diff})
+    ctx.floor('C06.T8 inline keep/drop matches in the WHERE pipeline', ninl, 5)
     # any other function named *truthy* in the executor must be in the frozen list
     others = [f.nice for f in prog.fns.values() if f.unit == 'vibesql_executor' and 'truthy' in f.nice.rsplit('::', 1)[-1]
               and not f.is_closure() and f.dk != 'Promoted' and f.nice not in TRUTHY]
